@@ -1,6 +1,6 @@
 (* Props/C13.v — Key filtering rewrites multi-key commands without corrupting them.
    Statements only; every proof is `exact <lemma>`. *)
-From RS Require Import Base.Bytes Model.Filter Model.CmdFilter Gen.CmdTable Proofs.CmdFilterProofs.
+From RS Require Import Base.Bytes Model.Filter Model.CmdFilter Gen.CmdTable Spec.RedisKeySpecs Proofs.CmdFilterProofs.
 Open Scope Z_scope.
 
 (* For every table row (first,last,step) and every argument vector of a valid arity, written
@@ -21,6 +21,13 @@ Proof. exact get_match_keys_spec. Qed.
 (* every row of the table regenerated from redis_command.go meets the side conditions *)
 Theorem C13_table_rows_ok : forallb (fun e => row_ok (snd e)) cmd_table = true.
 Proof. exact table_rows_ok. Qed.
+
+(* which arguments ARE keys is not the tool's to decide: the table regenerated from
+   redis_command.go is, row for row, the (firstkey, lastkey, keystep) table of Redis itself
+   (Spec/RedisKeySpecs, written from Redis 5.0's server.c; DEL's lastkey 0 is the tool's spelling
+   of -1) - no command missing, none with another key layout *)
+Theorem C13_table_is_redis_key_spec : norm_table cmd_table = redis_key_specs.
+Proof. vm_compute. reflexivity. Qed.
 
 (* the exported entry point, for every command of the table and every key filter *)
 Theorem C13_handle_filter_key_spec : forall c cmd first last step lead groups trailing,
@@ -66,6 +73,7 @@ Proof. vm_compute. repeat split. Qed.
 
 Print Assumptions C13_get_match_keys_spec.
 Print Assumptions C13_table_rows_ok.
+Print Assumptions C13_table_is_redis_key_spec.
 Print Assumptions C13_handle_filter_key_spec.
 Print Assumptions C13_unchanged_without_filter.
 Print Assumptions C13_unchanged_unknown_command.
